@@ -5,6 +5,8 @@ use crate::evidence::{Report, Tier};
 use crate::refdec::CmpStats;
 use crate::refhdr::{SHdr, SSize, StdHdr};
 use crate::syntax::*;
+use crate::util::*;
+use h263_rs::H263State;
 use rayon::prelude::*;
 use serde_json::json;
 use std::sync::atomic::{AtomicU64, Ordering};
@@ -534,6 +536,44 @@ pub fn run(tier: Tier) -> Report {
         rep.add_transitions(3 * n);
         rep.add_states(n);
         rep.extra_add("size_histories_of_three_intra_pictures", n);
+    }
+
+    // delivery in two pieces: a valid intra picture whose bytes arrive in two parts through one
+    // reader - the first call runs dry, is repeated after the rest has been appended and must give
+    // the picture of one-piece delivery; every break position (inside the start code, the size
+    // fields, INTRADC, an escape, the padding) of pictures in the three stream kinds
+    {
+        let mut pics: Vec<(u8, Pic)> = vec![];
+        for &(w, h) in &[(16u16, 16u16), (20, 12), (32, 16), (33, 17), (256, 8), (300, 20)] {
+            for v in 0..2u8 {
+                pics.push((1, coded_intra(sor(w, h, v, 7))));
+            }
+            if w % 4 == 0 && h % 4 == 0 {
+                pics.push((0, coded_intra(Hdr::Std(StdHdr::custom(w, h, false, 5, 9)))));
+            }
+        }
+        pics.push((0, coded_intra(Hdr::Std(StdHdr::baseline(1, false, 2, 6)))));
+        let n_two = AtomicU64::new(0);
+        pics.par_iter().for_each(|(opts, p)| {
+            let bytes = encode_bytes(p);
+            let mut st = H263State::new(options_from_bits(*opts));
+            if !decode_bytes(&mut st, &bytes).is_ok() {
+                rep.violation("C02/machinery-two-piece-base-picture", format!("{} does not decode in one piece", describe(p)), json!({"kind": "machinery"}));
+                return;
+            }
+            let expect = [last_snap(&st)];
+            for split in 1..bytes.len() {
+                n_two.fetch_add(1, Ordering::Relaxed);
+                if let Err(e) = deliver_in_two(*opts, &[], &bytes, split, &expect) {
+                    rep.violation("C02/delivery-in-two-pieces", format!("{}: {e}", describe(p).chars().take(80).collect::<String>()), json!({"kind": "stream-two-pieces", "options": opts, "concatenated": crate::bits::hex(&bytes), "pictures": 1, "split": split, "error": e}));
+                    break;
+                }
+            }
+        });
+        let n = n_two.load(Ordering::Relaxed);
+        rep.add_transitions(n);
+        rep.add_states(n);
+        rep.extra("two_piece_deliveries", json!(n));
     }
 
     rep.extra("samples_compared", json!(stats.0.load(Ordering::Relaxed)));
